@@ -3,6 +3,7 @@ import QeepProps.C01q
 import QeepProps.C08z
 import QeepProps.C14y
 import QeepProps.C15x
+import QeepProps.C15w
 import Mathlib.Tactic.IntervalCases
 /-!
 # C16 — what `BackPropagate` stores on the parameters of an `FC` layer (end to end)
@@ -415,6 +416,225 @@ theorem fc_backprop_bias_mean (H : Heap ℝ) (w b x N D O : Nat) (hR : Reach .me
   simp [div_eq, ofNat_eq]
   have : (N : ℝ) ≠ 0 := by exact_mod_cast (by omega : N ≠ 0)
   omega
+
+/-! ## success of the walk (leaf parameters, data input) -/
+
+theorem mkCtx_untracked (H : Heap ℝ) (ops : List Nat) (es : List (Edge ℝ)) (hd : ∀ m ∈ ops, H.dirty m = false)
+    (ht : ∀ m ∈ ops, H.tracked m = false) : (mkCtx H ops es).tracked = false := by
+  have h1 : ops.any H.dirty = false := by
+    rw [List.any_eq_false]; intro m hm; rw [hd m hm]; simp
+  have h2 : ops.all (fun n => !H.tracked n) = true := by
+    rw [List.all_eq_true]; intro m hm; simp [ht m hm]
+  unfold mkCtx
+  rw [h1, h2]
+  simp [freshCtx]
+
+/-- the shape every gradient has on the walk through the layer's graph -/
+def fcP (k N D O : Nat) (n : Nat) (g : Tensor ℝ) : Prop :=
+  if n = k + 8 ∨ n = k + 7 ∨ n = k + 6 ∨ n = k + 5 then Shaped [N, O] g
+  else if n = k + 4 then Shaped [N, O, D] g
+  else if n = k + 2 then Shaped [N, O, 1] g
+  else if n = k then Shaped [O, 1] g
+  else Shaped [O] g
+
+/-- **`BackPropagate` on the output of an FC layer succeeds** (`sum` mode) when the parameters are leaves (as the
+    initializers and `Update` + `ResetGradContext` leave them) and the input is an untracked, unspent data tensor -/
+theorem fc_backprop_ok (H : Heap ℝ) (w b x N D O : Nat) (hR : Reach .sum H)
+    (lw : Live H w) (lb : Live H b) (hx : x < H.size) (cx : H.dirty x = false) (ux : H.tracked x = false) (hwb : w ≠ b)
+    (ww : (H.val w).WF) (wb : (H.val b).WF) (wx : (H.val x).WF)
+    (dw : (H.val w).dims = [O]) (db : (H.val b).dims = [O]) (dx : (H.val x).dims = [N, D])
+    (leafw : (H.ctx w).edges = []) (leafb : (H.ctx b).edges = [])
+    (H' : Heap ℝ) (h1 : fcForward ⟨some w, some b⟩ [some x] H = .ok (H.size + 8, H')) :
+    (backprop .sum H' (H.size + 8)).status = .ok () := by
+  obtain ⟨H'', h1', hext, hsz, g⟩ := fc_forward_graph N D O w b x H lw.1 lb.1 hx _ _ _
+    (is1_self _ ww O dw) (is1_self _ wb O db) (is2_self _ wx N D dx)
+  obtain ⟨_, rfl⟩ := C15w.run_unique h1 h1'
+  have hwk : w < H.size := lw.1
+  have hbk : b < H.size := lb.1
+  have hxw : x ≠ w := by intro h; rw [h, dw] at dx; simp at dx
+  have hxb : x ≠ b := by intro h; rw [h, db] at dx; simp at dx
+  obtain ⟨hN, hD⟩ := g.vx.pos
+  have hO := g.vw.pos
+  have tw : H'.tracked w = true := by have := lw.2.1; simp only [Heap.tracked, hext.ctx hwk] at this ⊢; exact this
+  have tb : H'.tracked b = true := by have := lb.2.1; simp only [Heap.tracked, hext.ctx hbk] at this ⊢; exact this
+  have cw : H'.dirty w = false := by have := lw.2.2; simp only [Heap.dirty, hext.ctx hwk] at this ⊢; exact this
+  have cb : H'.dirty b = false := by have := lb.2.2; simp only [Heap.dirty, hext.ctx hbk] at this ⊢; exact this
+  have cx' : H'.dirty x = false := by simp only [Heap.dirty, hext.ctx hx] at cx ⊢; exact cx
+  have ux' : H'.tracked x = false := by simp only [Heap.tracked, hext.ctx hx] at ux ⊢; exact ux
+  have ew : (H'.ctx w).edges = [] := by rw [hext.ctx hwk]; exact leafw
+  have eb : (H'.ctx b).edges = [] := by rw [hext.ctx hbk]; exact leafb
+  have gw : H'.grad w = none := by
+    have := reach_clean_nograd hR w lw.2.2; simp only [Heap.grad, hext.ctx hwk] at this ⊢; exact this
+  have gb : H'.grad b = none := by
+    have := reach_clean_nograd hR b lb.2.2; simp only [Heap.grad, hext.ctx hbk] at this ⊢; exact this
+  have gnew : ∀ n, H.size ≤ n → H'.grad n = none := (fresh_fcForward _ _ H _ H' h1).2
+  have d0 : H'.dirty H.size = false := ctx_clean g.c0 (by simpa using cw)
+  have d1 : H'.dirty (H.size + 1) = false := ctx_clean g.c1 (by simpa using cx')
+  have d2 : H'.dirty (H.size + 2) = false := ctx_clean g.c2 (by simpa using d0)
+  have d3 : H'.dirty (H.size + 3) = false := ctx_clean g.c3 (by simpa using d1)
+  have d4 : H'.dirty (H.size + 4) = false := ctx_clean g.c4 (by simpa using ⟨d2, d3⟩)
+  have d5 : H'.dirty (H.size + 5) = false := ctx_clean g.c5 (by simpa using d4)
+  have d6 : H'.dirty (H.size + 6) = false := ctx_clean g.c6 (by simpa using d5)
+  have d7 : H'.dirty (H.size + 7) = false := ctx_clean g.c7 (by simpa using cb)
+  have c67 : ∀ m ∈ [H.size + 6, H.size + 7], H'.dirty m = false := by simpa using ⟨d6, d7⟩
+  have c23 : ∀ m ∈ [H.size + 2, H.size + 3], H'.dirty m = false := by simpa using ⟨d2, d3⟩
+  obtain ⟨t0, e0⟩ := ctx_live g.c0 (by simpa using cw) ⟨w, by simp, tw⟩
+  obtain ⟨t2, e2⟩ := ctx_live g.c2 (by simpa using d0) ⟨H.size, by simp, t0⟩
+  obtain ⟨t4, e4⟩ := ctx_live g.c4 c23 ⟨H.size + 2, by simp, t2⟩
+  obtain ⟨t5, e5⟩ := ctx_live g.c5 (by simpa using d4) ⟨H.size + 4, by simp, t4⟩
+  obtain ⟨t6, e6⟩ := ctx_live g.c6 (by simpa using d5) ⟨H.size + 5, by simp, t5⟩
+  obtain ⟨t7, e7⟩ := ctx_live g.c7 (by simpa using cb) ⟨b, by simp, tb⟩
+  obtain ⟨t8, e8⟩ := ctx_live g.c8 c67 ⟨H.size + 6, by simp, t6⟩
+  have u1 : H'.tracked (H.size + 1) = false := by
+    unfold Heap.tracked; rw [g.c1]; exact mkCtx_untracked _ _ _ (by simpa using cx') (by simpa using ux')
+  have u3 : H'.tracked (H.size + 3) = false := by
+    unfold Heap.tracked; rw [g.c3]; exact mkCtx_untracked _ _ _ (by simpa using d1) (by simpa using u1)
+  have hdagH := reach_dag hR
+  have hdag : HeapDag H' := by
+    intro v e he
+    by_cases hv : v < H.size
+    · rw [hext.ctx hv] at he; exact hdagH v e he
+    · by_cases hv9 : v < H.size + 9
+      · obtain ⟨i, hi, rfl⟩ : ∃ i, i ≤ 8 ∧ v = H.size + i := ⟨v - H.size, by omega, by omega⟩
+        have hm := fc_edges_sub g i hi e he
+        interval_cases i <;> simp [fcEdges] at hm <;> (try rcases hm with rfl | rfl) <;> (try subst hm) <;> simp <;> omega
+      · rw [ctx_beyond H' v (by omega)] at he; simp at he
+  -- who is visited
+  have hM : ∀ v ∈ backwardOrder H' (H.size + 8), v = H.size + 8 ∨ v = H.size + 7 ∨ v = H.size + 6 ∨ v = H.size + 5 ∨
+      v = H.size + 4 ∨ v = H.size + 2 ∨ v = H.size ∨ v = w ∨ v = b := by
+    apply order_subset H' (H.size + 8)
+    · left; rfl
+    · intro u hu v hv
+      unfold succs at hv
+      obtain ⟨hm, htv⟩ := List.mem_filter.mp hv
+      obtain ⟨e, he, rfl⟩ := List.mem_map.mp hm
+      rcases hu with rfl | rfl | rfl | rfl | rfl | rfl | rfl | rfl | rfl
+      · rw [e8] at he; simp at he; rcases he with rfl | rfl <;> simp
+      · rw [e7] at he; simp at he; subst he; simp
+      · rw [e6] at he; simp at he; subst he; simp
+      · rw [e5] at he; simp at he; subst he; simp
+      · rw [e4] at he; simp at he
+        rcases he with rfl | rfl
+        · simp
+        · simp at htv; rw [u3] at htv; cases htv
+      · rw [e2] at he; simp at he; subst he; simp
+      · rw [e0] at he; simp at he; subst he; simp
+      · rw [ew] at he; simp at he
+      · rw [eb] at he; simp at he
+  let Hm := markDirty H' (backwardOrder H' (H.size + 8))
+  have hv1 : ∀ n, Hm.val n = H'.val n := fun n => markDirty_val _ _ n
+  have hcg : ∀ gy r, evalRule .sum Hm gy r = evalRule .sum H' gy r := fun gy r => evalRule_val_congr .sum Hm H' hv1 gy r
+  apply C01p.backprop_ok .sum H' (H.size + 8) hdag t8 (fcP H.size N D O)
+  · intro n a b' ha hb
+    unfold fcP at ha hb ⊢
+    split_ifs at ha hb ⊢ <;> exact C15w.shaped_add_ok _ a b' ha hb
+  · intro n hn gg hgg
+    rcases hM n hn with rfl | rfl | rfl | rfl | rfl | rfl | rfl | rfl | rfl
+    all_goals first
+      | (rw [gnew _ (by omega)] at hgg; cases hgg)
+      | (rw [gw] at hgg; cases hgg)
+      | (rw [gb] at hgg; cases hgg)
+  · unfold fcP
+    rw [if_pos (Or.inl rfl)]
+    have := ones_shaped (H'.val (H.size + 8)) g.y.wf
+    rw [g.y.dims] at this
+    exact this
+  · intro u hu e he htr gy hgy
+    rw [hcg]
+    rcases hM u hu with rfl | rfl | rfl | rfl | rfl | rfl | rfl | rfl | rfl
+    · -- the result: identity towards both Broadcast copies
+      unfold fcP at hgy; rw [if_pos (Or.inl rfl)] at hgy
+      rw [e8] at he; simp at he
+      rcases he with rfl | rfl
+      · exact ⟨gy, rfl, by (try dsimp only); unfold fcP; rw [if_pos (by omega)]; exact hgy⟩
+      · exact ⟨gy, rfl, by (try dsimp only); unfold fcP; rw [if_pos (by omega)]; exact hgy⟩
+    · -- Broadcast(B) → B
+      unfold fcP at hgy; rw [if_pos (by omega)] at hgy
+      rw [e7] at he; simp at he; subst he
+      obtain ⟨dB, q1, q2⟩ := bcastRule_row (is2_self gy hgy.1 N O hgy.2)
+      refine ⟨dB, ?_, ?_⟩
+      · show bcastRule .sum (H'.val b).dims (H'.val (H.size + 7)).dims gy = .ok dB
+        rw [g.vb.dims, g.bb.dims]; exact q1
+      · (try dsimp only); unfold fcP
+        rw [if_neg (by omega), if_neg (by omega), if_neg (by omega), if_neg (by omega)]
+        exact ⟨q2.wf, q2.dims⟩
+    · -- Broadcast(sum) → sum: equal shapes
+      unfold fcP at hgy; rw [if_pos (by omega)] at hgy
+      rw [e6] at he; simp at he; subst he
+      refine ⟨gy, ?_, by (try dsimp only); unfold fcP; rw [if_pos (by omega)]; exact hgy⟩
+      show bcastRule .sum (H'.val (H.size + 5)).dims (H'.val (H.size + 6)).dims gy = .ok gy
+      rw [g.sb]; exact C16x.bcastRule_same .sum _ gy
+    · -- SumAlong(2) → product
+      unfold fcP at hgy; rw [if_pos (by omega)] at hgy
+      rw [e5] at he; simp at he; subst he
+      obtain ⟨u, hu', iu⟩ := unsq2_mat (is2_self gy hgy.1 N O hgy.2)
+      obtain ⟨G3, h3, i3⟩ := bcast_last iu D hD
+      refine ⟨G3, ?_, ?_⟩
+      · show reducerBroadcasted gy (H'.val (H.size + 4)).dims 2 = .ok G3
+        rw [g.mm.dims]
+        unfold reducerBroadcasted
+        simp only [bind, Out.bind]
+        have hu'' : vUnSqueeze gy ((2 : Nat) : Int) = .ok u := hu'
+        rw [hu'']
+        exact h3
+      · (try dsimp only); unfold fcP
+        rw [if_neg (by omega), if_pos rfl]
+        exact ⟨i3.wf, i3.dims⟩
+    · -- MatMul → first operand (the second is untracked)
+      unfold fcP at hgy; rw [if_neg (by omega), if_pos rfl] at hgy
+      rw [e4] at he; simp at he
+      rcases he with rfl | rfl
+      · have ixb : Is3 (H'.val (H.size + 3)) N 1 D (fun n _ d => (H.val x).el [n, d]) := by rw [g.xb]; exact g.x1
+        obtain ⟨XT, ht, iT⟩ := transpose3 ixb
+        obtain ⟨g4, hm, i4⟩ := matMul3 (is3_self gy hgy.1 N O D hgy.2) iT
+        refine ⟨g4, ?_, ?_⟩
+        · simp only [evalRule, bind, Out.bind, ht, hm]
+        · (try dsimp only); unfold fcP
+          rw [if_neg (by omega), if_neg (by omega), if_pos rfl]
+          exact ⟨i4.wf, i4.dims⟩
+      · simp at htr; rw [u3] at htr; cases htr
+    · -- Broadcast(W₁) → W₁
+      unfold fcP at hgy; rw [if_neg (by omega), if_neg (by omega), if_pos rfl] at hgy
+      rw [e2] at he; simp at he; subst he
+      obtain ⟨g5, h5, i5⟩ := bcastRule_lead3 (is3_self gy hgy.1 N O 1 hgy.2)
+      refine ⟨g5, ?_, ?_⟩
+      · show bcastRule .sum (H'.val H.size).dims (H'.val (H.size + 2)).dims gy = .ok g5
+        rw [g.w1.dims, g.wb.dims]; exact h5
+      · (try dsimp only); unfold fcP
+        rw [if_neg (by omega), if_neg (by omega), if_neg (by omega), if_pos rfl]
+        exact ⟨i5.wf, i5.dims⟩
+    · -- UnSqueeze(W) → W
+      unfold fcP at hgy; rw [if_neg (by omega), if_neg (by omega), if_neg (by omega), if_pos rfl] at hgy
+      rw [e0] at he; simp at he; subst he
+      refine ⟨⟨[O], gy.data⟩, ?_, ?_⟩
+      · show vReshape gy ((H'.val w).dims.map Int.ofNat) = .ok ⟨[O], gy.data⟩
+        rw [g.vw.dims]
+        exact vReshape_data gy hgy.1 [O] (by simp; omega) (by rw [hgy.2]; simp [prod])
+      · (try dsimp only); unfold fcP
+        rw [if_neg (by omega), if_neg (by omega), if_neg (by omega), if_neg (by omega)]
+        have := reshape_col (is2_self gy hgy.1 O 1 hgy.2)
+        exact ⟨this.wf, this.dims⟩
+    · rw [ew] at he; simp at he
+    · rw [eb] at he; simp at he
+
+/-- **leaf parameters, data input**: `BackPropagate` succeeds, and `W.Gradient()[o] = Σ_n Σ_d x[n][d]`,
+    `B.Gradient()[o] = N` — no hypothesis on the outcome of the walk -/
+theorem fc_backprop_leaf (H : Heap ℝ) (w b x N D O : Nat) (hR : Reach .sum H)
+    (lw : Live H w) (lb : Live H b) (hx : x < H.size) (cx : H.dirty x = false) (ux : H.tracked x = false) (hwb : w ≠ b)
+    (ww : (H.val w).WF) (wb : (H.val b).WF) (wx : (H.val x).WF)
+    (dw : (H.val w).dims = [O]) (db : (H.val b).dims = [O]) (dx : (H.val x).dims = [N, D])
+    (leafw : (H.ctx w).edges = []) (leafb : (H.ctx b).edges = [])
+    (hsole : ∀ v, ∀ e ∈ (H.ctx v).edges, e.target ≠ w ∧ e.target ≠ b) :
+    ∃ y H', fcForward ⟨some w, some b⟩ [some x] H = .ok (y, H') ∧ (backprop .sum H' y).status = .ok () ∧
+        ∃ dW dB, (backprop .sum H' y).heap.grad w = some dW ∧ (backprop .sum H' y).heap.grad b = some dB ∧
+          dW.WF ∧ dW.dims = [O] ∧ dB.WF ∧ dB.dims = [O] ∧
+          (∀ o, o < O → dW.el [o] = ∑ n ∈ Finset.range N, ∑ d ∈ Finset.range D, (H.val x).el [n, d]) ∧
+          (∀ o, o < O → dB.el [o] = (N : ℝ)) := by
+  obtain ⟨H', h1, hext, g, _⟩ := fc_backprop_paths .sum H w b x N D O hR lw lb hx cx hwb ww wb wx dw db dx hsole
+  obtain ⟨y, H'', h2, himp⟩ := fc_backprop H w b x N D O hR lw lb hx cx hwb ww wb wx dw db dx hsole
+  obtain ⟨rfl, rfl⟩ := C15w.run_unique h1 h2
+  have hok := fc_backprop_ok H w b x N D O hR lw lb hx cx ux hwb ww wb wx dw db dx leafw leafb H' h1
+  exact ⟨_, H', h1, hok, himp hok⟩
 
 /-- the hypotheses of `fc_backprop` are satisfiable: `W = [3, 4]`, `B = [0, 1]` tracked leaves, `x = [[1, 2, 5]]` -/
 example : ∃ (H : Heap ℝ) (w b x N D O : Nat), Reach .sum H ∧ Live H w ∧ Live H b ∧ x < H.size ∧ H.dirty x = false ∧ w ≠ b ∧
